@@ -5,7 +5,7 @@
    writer's and reader's selects on the quit latch, connection loss, Stop and the final drain as separate steps, so a
    schedule l is any interleaving of the sender, writer, reader, shutdown and drain.  brun true = the repaired code. *)
 From Coq Require Import List Arith Bool.
-From Sam Require Import Model.Backend Proofs.BackendProofs.
+From Sam Require Import Model.Backend Proofs.BackendProofs Proofs.BackendLive.
 Import ListNotations.
 
 (* for every schedule: when every thread has run to completion, every request that exists has been completed -
@@ -20,6 +20,19 @@ Print Assumptions C02_all_answered.
 Theorem C02_invariant : forall ids l, BI ids (brun true ids l).
 Proof. exact brun_inv. Qed.
 Print Assumptions C02_invariant.
+
+(* no deadlock: from EVERY reachable state in which the connection has ended (the latch closed, the socket closed) the
+   threads' own remaining steps - at most 4 per request plus 3 - lead to a finished state; so, with the theorem
+   above, every request that exists gets its answer *)
+Theorem C02_reaches_finished : forall ids s, BI ids s -> ended s ->
+  finished ids (fold_left (bnext true ids) (finishing_schedule ids) s) = true.
+Proof. exact reaches_finished. Qed.
+Print Assumptions C02_reaches_finished.
+
+Theorem C02_ended_then_all_answered : forall ids l, ended (brun true ids l) ->
+  all_done ids (fold_left (bnext true ids) (finishing_schedule ids) (brun true ids l)) = true.
+Proof. exact ended_then_all_answered. Qed.
+Print Assumptions C02_ended_then_all_answered.
 
 (* exactly once: no step completes a completed request again (a second completion closes a closed channel: a crash) *)
 Theorem C02_never_twice : forall ids fixed s x i, place s i = LDone -> place (bnext fixed ids s x) i = LDone.
